@@ -171,6 +171,52 @@ def run(ctx):
         for k in range(0, len(segs), 12):
             body = "\r".join("%s|1|2^3&4~5|20200101" % x for x in segs[k:k + 12])
             texts.setdefault("MSH|^~\\&|A|B|C|D|20200101||%s|1|P|%s\r%s" % (typ, v, body), "allsegments:%s:%d" % (v, k))
+            # ... and with a value in EVERY field the version defines for them (every row of the field tables is used)
+            body = "\r".join("|".join([x] + ["1"] * max([r["i"] for r in (T.seg_rows(v, x) or [{"i": 3}])] + [1])) for x in segs[k:k + 12])
+            texts.setdefault("MSH|^~\\&|A|B|C|D|20200101||%s|1|P|%s\r%s" % (typ, v, body), "allfields:%s:%d" % (v, k))
+    # instances of real message structures (required only, every child, segments repeated, groups repeated ...): the
+    # parser's group search and the validator's descent see every structure, every withdrawn segment in its place
+    from . import groups
+    for v in T.versions():
+        sids = T.message_names(v)
+
+        def choice_groups(kids, anc=()):
+            for k in kids:
+                if k["kind"] == "GRP":
+                    if k.get("content") == "choice":
+                        yield anc + (k,)
+                    for x in choice_groups(k["kids"], anc + (k,)):
+                        yield x
+        with_choice = []
+        for sid in sids:
+            try:
+                if any(True for _ in choice_groups(T.structure(v, sid)["kids"])):
+                    with_choice.append(sid)
+            except Exception:
+                pass
+        if quick:
+            sids = rnd.sample(sids, min(len(sids), 30)) + rnd.sample(with_choice, min(len(with_choice), 6))
+        for sid in sids:
+            try:
+                st = T.structure(v, sid)
+            except Exception:
+                continue
+            if any(n[1] == "SEG" and len(n[0]) != 3 for n in groups.flatten_structure(st)):
+                continue
+            # a group of alternatives (choice): each alternative twice in a row, and two different ones
+            for chain in list(choice_groups(st["kids"]))[:3]:
+                g = chain[-1]
+                alts = [k["name"] for k in g["kids"] if k["kind"] == "SEG"]
+                base = groups.gen_with(st["kids"], set(id(x) for x in chain), {}, False)
+                pos = next((i for i, n_ in enumerate(base) if n_ in alts), len(base))
+                base = [n_ for n_ in base if n_ not in alts]
+                for pick in [[a, a] for a in alts[:4]] + ([[alts[0], alts[1]]] if len(alts) > 1 else []):
+                    names_ = base[:pos] + pick + base[pos:]
+                    body = "\r".join(groups.seg_text(x, k_ + 1, v) for k_, x in enumerate(names_[1:]))
+                    texts.setdefault(groups.msh(v, sid) + "\r" + body, "structure:%s:%s:choice:%s" % (v, sid, "+".join(pick)))
+            for (mode, names_, conf) in groups.instances(st, rnd, True)[:5 if quick else 12]:
+                body = "\r".join(("%s|1|2^3&4~5|20200101" % x) if k_ % 2 else groups.seg_text(x, k_ + 1, v) for k_, x in enumerate(names_[1:]))
+                texts.setdefault(groups.msh(v, sid) + "\r" + body, "structure:%s:%s:%s" % (v, sid, mode))
     toks = ["MSH", "|", "^~\\&", "^~\\&#", "\r", "PID", "ADT^A01", "2.5", "2.7", "x", "&", "~", "\\", " ", "\n", "ZZZ|a", "MSH|^~\\&|"]
     for _ in range(1500 if quick else 40000):
         t = "".join(rnd.choice(toks) for _ in range(rnd.randint(1, 8)))
